@@ -25,7 +25,7 @@ TRUSTED = [
 ]
 ASSUMPTIONS = [
     'IEEE arithmetic without overflow/underflow of intermediates (float32 cases are generated in natural units only)',
-    'theorems are over exact reals; rounding is covered by the correspondence tolerance (1e-13 double, 2e-6 single)',
+    'theorems are over exact reals; rounding is covered by the correspondence tolerance (1e-12 double — scipp's own unit-conversion factors carry up to ~4e-14 — and 2e-6 single; the property allows 1e-11 / 1e-5)',
 ]
 M = 'scippneutron.conversion.tof:'
 # kernel / composition name -> (operand kinds in model argument order, expression)
@@ -130,9 +130,9 @@ def correspondence(ctx):
         res_dtype = (r.get('result') or {}).get('dtype')
         any32 = res_dtype == 'float32' or any(o['dtype'] == 'float32' for o in g['operands'].values())
         # a float32 operand limits the accuracy of the (possibly float64) result to single precision
-        tol = '(1 # 10000000000000)' if not any32 else '(2 # 1000000)'
+        tol = '(1 # 1000000000000)' if not any32 else '(2 # 1000000)'
         if '>' in g['kname'] and not any32:
-            tol = '(3 # 10000000000000)'
+            tol = '(3 # 1000000000000)'
         for t, d in kcorr.element_cases(g['kname'], KERNELS[g['kname']][0], g, r, tol):
             terms.append(t)
             descs.append(d)
